@@ -1,0 +1,109 @@
+//go:build verif
+
+package redisemu
+
+// C11: the wait table (waitTable.go): who is woken, in which order, and that a
+// woken client has left every queue. Only the sequential data structure is
+// decided here; scheduling between the waiting client, the pusher and other
+// consumers is outside contract-based verification (see DESIGN.md).
+//
+// A signalListTuple links one waiting client (signal) into one key's queue
+// (waitList). tupleWF is the local shape of a linked tuple: it belongs to a
+// queue, and its queue neighbours point back at it (or it is the queue's head
+// / tail); the same for the client's own list of tuples.
+
+//@ pred tupleWF(t *signalListTuple) = t.signal == nil || (t.waitList != nil && t.queuePrev != t && t.queueNext != t && t.objectsPrev != t && t.objectsNext != t && (t.queuePrev == nil ==> t.waitList.queueHead == t) && (t.queuePrev != nil ==> t.queuePrev.queueNext == t && t.queuePrev.waitList == t.waitList && t.queuePrev.signal != nil) && (t.queueNext == nil ==> t.waitList.queueTail == t) && (t.queueNext != nil ==> t.queueNext.queuePrev == t && t.queueNext.waitList == t.waitList && t.queueNext.signal != nil) && (t.objectsPrev == nil ==> t.signal.objectsHead == t) && (t.objectsPrev != nil ==> t.objectsPrev.objectsNext == t && t.objectsPrev.signal == t.signal) && (t.objectsNext == nil ==> t.signal.objectsTail == t) && (t.objectsNext != nil ==> t.objectsNext.objectsPrev == t && t.objectsNext.signal == t.signal))
+//@ pred queueWF(q *objectWaitList) = (q.queueHead == nil) == (q.queueTail == nil) && (q.queueHead != nil ==> q.queueHead.waitList == q && q.queueHead.queuePrev == nil && q.queueHead.signal != nil) && (q.queueTail != nil ==> q.queueTail.waitList == q && q.queueTail.queueNext == nil && q.queueTail.signal != nil)
+//@ pred signalWF(ws *wakeSignal) = (ws.objectsHead == nil) == (ws.objectsTail == nil) && (ws.objectsHead != nil ==> ws.objectsHead.signal == ws && ws.objectsHead.objectsPrev == nil) && (ws.objectsTail != nil ==> ws.objectsTail.signal == ws && ws.objectsTail.objectsNext == nil)
+
+// a new waiter joins at the tail of the key's queue: first come, first woken
+//@ func wakeSignal.joinWaitList
+//@ prop C11
+//@ safetyprop none
+//@ requires ws != nil && owl != nil
+//@ requires free wf: queueWF(owl) && signalWF(ws)
+//@ modifies owl->queueHead owl->queueTail ws->objectsHead ws->objectsTail signalListTuple.queueNext signalListTuple.objectsNext alloc
+//@ ensures [C11] fifo.tail: owl.queueTail != nil && owl.queueTail.signal == ws && owl.queueTail.waitList == owl && owl.queueTail.queueNext == nil && owl.queueTail.queuePrev == old(owl.queueTail)
+//@ ensures [C11] fifo.fresh: asref(owl.queueTail) >= old(alloc())
+//@ ensures [C11] fifo.head: old(owl.queueHead) != nil ==> owl.queueHead == old(owl.queueHead)
+//@ ensures [C11] fifo.first: old(owl.queueHead) == nil ==> owl.queueHead == owl.queueTail
+//@ ensures [C11] fifo.link: old(owl.queueTail) != nil ==> old(owl.queueTail).queueNext == owl.queueTail
+//@ ensures [C11] wf.queue: queueWF(owl)
+//@ ensures [C11] wf.signal: signalWF(ws) && ws.objectsTail == owl.queueTail
+//@ ensures [C11] objects.first: old(ws.objectsTail) == nil ==> ws.objectsHead == ws.objectsTail
+//@ ensures [C11] objects.head: old(ws.objectsHead) != nil ==> ws.objectsHead == old(ws.objectsHead)
+
+// leaving a queue: the neighbours are joined, so the order of the others is kept;
+// the head's successor becomes the head
+//@ func signalListTuple.unlink
+//@ prop C11
+//@ safetyprop none
+//@ requires ref != nil && ref.signal != nil
+//@ requires free wf: tupleWF(ref) && queueWF(ref.waitList) && signalWF(ref.signal)
+//@ requires free wf.next: (ref.queueNext != nil ==> tupleWF(ref.queueNext)) && (ref.queuePrev != nil ==> tupleWF(ref.queuePrev)) && (ref.objectsNext != nil ==> tupleWF(ref.objectsNext)) && (ref.objectsPrev != nil ==> tupleWF(ref.objectsPrev))
+//@ requires [C11] wf.queues: forall q *objectWaitList :: queueWF(q)
+//@ requires [C11] wf.signals: forall w *wakeSignal :: signalWF(w)
+//@ modifies signalListTuple objectWaitList.queueHead objectWaitList.queueTail wakeSignal.objectsHead wakeSignal.objectsTail
+//@ ensures [C11] head.next: old(ref.queuePrev) == nil ==> old(ref.waitList).queueHead == old(ref.queueNext)
+//@ ensures [C11] head.kept: old(ref.queuePrev) != nil ==> old(ref.waitList).queueHead == old(ref.waitList.queueHead) && old(ref.queuePrev).queueNext == old(ref.queueNext)
+//@ ensures [C11] tail.prev: old(ref.queueNext) == nil ==> old(ref.waitList).queueTail == old(ref.queuePrev)
+//@ ensures [C11] back.link: old(ref.queueNext) != nil ==> old(ref.queueNext).queuePrev == old(ref.queuePrev)
+//@ ensures [C11] objects.head: old(ref.objectsPrev) == nil ==> old(ref.signal).objectsHead == old(ref.objectsNext)
+//@ ensures [C11] detached: ref.signal == nil && ref.waitList == nil && ref.queuePrev == nil && ref.queueNext == nil && ref.objectsPrev == nil && ref.objectsNext == nil
+//@ ensures [C11] empty: listEmpty == (old(ref.waitList).queueHead == nil)
+//@ ensures [C11] wf.queues: forall q *objectWaitList :: queueWF(q)
+//@ ensures [C11] wf.signals: forall w *wakeSignal :: signalWF(w)
+
+// a client that is woken (or gives up) leaves every queue it is in
+//@ func waitTable.unlinkWakeSignal
+//@ prop C11
+//@ safetyprop none
+//@ requires wt != nil && wt.table != nil && ws != nil
+//@ requires [C11] wf.queues: forall q *objectWaitList :: queueWF(q)
+//@ requires [C11] wf.signals: forall w *wakeSignal :: signalWF(w)
+//@ loop 1 invariant wf.queues: forall q *objectWaitList :: queueWF(q)
+//@ loop 1 invariant wf.signals: forall w *wakeSignal :: signalWF(w)
+//@ use signalListTuple.unlink.*
+//@ ensures [C11] wf.queues: forall q *objectWaitList :: queueWF(q)
+//@ ensures [C11] wf.signals: forall w *wakeSignal :: signalWF(w)
+//@ modifies signalListTuple objectWaitList.queueHead objectWaitList.queueTail wakeSignal.objectsHead wakeSignal.objectsTail map
+//@ ensures [C11] left.all: ws.objectsHead == nil
+
+// a push of n elements wakes at most n waiters, each taken from the head of the key's queue
+//@ ghost gWakes int
+//@ func waitTable.unblock
+//@ prop C11
+//@ safetyprop none
+//@ requires wt != nil && wt.table != nil
+//@ requires free wf.queues: forall q *objectWaitList :: queueWF(q)
+//@ requires free wf.signals: forall w *wakeSignal :: signalWF(w)
+//@ requires free wf.table: forall k string :: haskey(wt.table, k) ==> wt.table[k] != nil
+//@ loop 1 invariant wf.queues: forall q *objectWaitList :: queueWF(q)
+//@ loop 1 invariant wf.signals: forall w *wakeSignal :: signalWF(w)
+//@ loop 1 invariant list != nil
+//@ use waitTable.unlinkWakeSignal.*
+//@ ghostentry gWakes = 0
+//@ ghostafter "ws.ready <- struct{}{}" : gWakes = gWakes + 1
+//@ assertbefore "wt.unlinkWakeSignal(ws)" [C11] head.first: ref == list.queueHead && ref != nil && ws == ref.signal
+//@ assertbefore "ws.ready <- struct{}{}" [C11] left.queues: ws.objectsHead == nil
+//@ loop 1 invariant [C11] count: gWakes == i && 0 <= i && (elements >= 0 ==> i <= elements)
+//@ modifies signalListTuple objectWaitList.queueHead objectWaitList.queueTail wakeSignal.objectsHead wakeSignal.objectsTail map ghost.gWakes
+//@ ensures [C11] at.most: gWakes >= 0 && (elements >= 0 ==> gWakes <= elements)
+
+//@ func newWakeSignal
+//@ prop C11
+//@ safetyprop none
+//@ modifies global.signals alloc
+//@ ensures result != nil && result.objectsHead == nil && result.objectsTail == nil
+//@ ensures fresh: asref(result) >= old(alloc())
+
+// a client that starts waiting on a key is the last in that key's queue
+//@ func waitTable.enterWait
+//@ prop C11
+//@ safetyprop none
+//@ requires wt != nil && wt.table != nil
+//@ requires free wf.queues: forall q *objectWaitList :: queueWF(q)
+//@ requires free wf.table: forall k string :: haskey(wt.table, k) ==> wt.table[k] != nil
+//@ modifies objectWaitList wakeSignal.objectsHead wakeSignal.objectsTail signalListTuple.queueNext signalListTuple.objectsNext map global.signals alloc
+//@ ensures [C11] queued: ws != nil && haskey(wt.table, name) && wt.table[name] != nil && wt.table[name].queueTail != nil && wt.table[name].queueTail.signal == ws && wt.table[name].queueTail.queueNext == nil
+//@ ensures [C11] registered: ws.objectsHead != nil && ws.objectsHead == wt.table[name].queueTail
